@@ -206,6 +206,76 @@ def try_propagated(f, call):
     return (False, "result is not propagated; uses: " + (", ".join(kinds) if kinds else "none (dropped)"), None)
 
 
+def result_killed_unexamined(f, call):
+    """Path check that complements try_propagated (which asks whether the Result *can* flow into `?`): starting after `call`, is there a path on
+    which the place holding its Result is dropped or assigned again before anything read it (matched on it, borrowed it, passed it on)?
+    That is the `let mut r = Ok(()); for .. { r = step(); } r?` shape: only the last Result is looked at.  Plain moves into another local are
+    followed (`r = move tmp`).
+    -> None, or a short description of the kill."""
+    if call.dest.get("p") or call.target is None:
+        return None
+    d0 = call.dest["l"]
+    if d0 == 0:
+        return None
+    seen = {(call.target, d0)}
+    work = [(call.target, d0)]
+    while work:
+        b, d = work.pop()
+        blk = f.blocks[b]
+        examined = False
+        killed = None
+        returned = False
+
+        def reads(op):
+            p = op_place(op)
+            return p is not None and p["l"] == d
+        for st in blk["stmts"]:
+            rv = st.get("rv")
+            if rv:
+                k = rv["k"]
+                if k == "use" and reads(rv["op"]) and not op_place(rv["op"]).get("p") and "lhs" in st and not st["lhs"].get("p"):
+                    d = st["lhs"]["l"]       # moved as a whole: keep following it
+                    if d == 0:
+                        returned = True
+                        break
+                    continue
+                ops = []
+                if k in ("use", "cast", "repeat", "un"):
+                    ops = [rv.get("op") or rv.get("a")]
+                elif k == "bin":
+                    ops = [rv["a"], rv["b"]]
+                elif k == "aggr":
+                    ops = rv["ops"]
+                if any(o is not None and reads(o) for o in ops) or (k in ("ref", "copy_for_deref", "rawptr", "discr", "len") and rv.get("place", {}).get("l") == d):
+                    examined = True
+                    break
+            if "lhs" in st and st["lhs"]["l"] == d and not st["lhs"].get("p"):
+                killed = "assigned again"
+                break
+        if examined or returned:
+            continue
+        t = blk["term"]
+        if killed is None:
+            if t["k"] == "call":
+                if any(reads(a) for a in t["args"]):
+                    continue
+                if t["dest"]["l"] == d and not t["dest"].get("p"):
+                    killed = "assigned again by %s" % short_path(Call(f, b, t).best)
+            elif t["k"] == "drop" and t["place"]["l"] == d and not t["place"].get("p"):
+                killed = "dropped"
+            elif t["k"] == "switch" and reads(t["discr"]):
+                continue
+            elif t["k"] == "return":
+                continue
+        if killed:
+            return "%s (bb%d) before anything looked at it" % (killed, b)
+        for (_, y) in f.succ_edges(b):
+            if (y, d) not in seen:
+                seen.add((y, d))
+                work.append((y, d))
+    return None
+
+
 def continue_edge_of_try(f, call):
     """(switch_block, label) of the Continue edge of the `?` applied to `call`'s result, or None"""
     ok, how, tb = try_propagated(f, call)
